@@ -1,4 +1,5 @@
 import CircBuf.Lemmas.TieTac
+import CircBuf.Lemmas.NonDefect
 set_option linter.unusedSimpArgs false
 set_option linter.unusedVariables false
 set_option maxHeartbeats 1000000
@@ -33,10 +34,22 @@ maybe theorem tie_get_mut (i : Nat) (s : Sys) (h : Inv s.buf)
 maybe theorem tie_nth_front (i : Nat) (s : Sys) (h : Inv s.buf)
     (hnd : NonDefect (nthFront? i s).1) :
     Gen.nth_front i s = nthFront? i s := by
-  tie3 h hnd [Gen.nth_front, nthFront?]
+  first
+  | (have hsz := h.size_le
+     have hW := h.cap_lt
+     have hg : ∀ j, Gen.get j s = get? j s := fun j => tie_get j s h (nd_get j s h)
+     callEval [Gen.nth_front, nthFront?, checkedSub, hg]
+     done)
+  | (tie3 h hnd [Gen.nth_front, nthFront?]; done)
 maybe theorem tie_nth_back (i : Nat) (s : Sys) (h : Inv s.buf)
     (hnd : NonDefect (nthBack? i s).1) :
     Gen.nth_back i s = nthBack? i s := by
-  tie3 h hnd [Gen.nth_back, nthBack?]
+  first
+  | (have hsz := h.size_le
+     have hW := h.cap_lt
+     have hg : ∀ j, Gen.get j s = get? j s := fun j => tie_get j s h (nd_get j s h)
+     callEval [Gen.nth_back, nthBack?, checkedSub, hg]
+     done)
+  | (tie3 h hnd [Gen.nth_back, nthBack?]; done)
 
 end CircBuf
